@@ -291,29 +291,29 @@ _ADD = {
            "measures by Fubini from the polygon's exact moments, and the T1 theorem that the divergence-theorem sums over the "
            "mesh's surface triangles equal them.",
     "C08": "ShapeMachine has SetSizeNear (a target 3e-6 away from the current value is still a target) and SetCentroidBad (a malformed "
-           "centre is refused without touching the shape, or accepted).",
+           "centre is refused without touching the shape, or accepted). The histories include Read(shape)/Read(core) and SetCoreCentroid; the live core's projection and containment are compared after every step.",
     "C03": "SetSizeNear, SetCentroidBad and a base a hundred thousand sizes from the origin are part of the machine. SetCentroid has the target 'nudge' (a move that is small only in numpy's default sense); bases include nanometre-sized and "
            "vertex-mean-zero shapes. The projection that is compared after every transition also calls the queries that take arguments "
            "(compute_form_factor_amplitude at fixed q, distance_to_surface at fixed angles); ShapeMachine has the action "
            "SetCoreSize (resizing the live core that a rounded shape hands out); long random walks over the TLC state graph "
-           "are replayed in addition to one test per transition.",
+           "are replayed in addition to one test per transition. Read(shape)/Read(core) (every query, between mutations) and SetCoreCentroid are actions; the projection compared after every step includes containment at points laid out around the current vertices and the full projection of the live core of a rounded shape.",
     "C04": "Explicit normals come in lengths 3, 1, 1 + 3e-6 and 0.999995; placements include a one-milliradian tilt, a micrometre copy "
            "and a copy 1e5 diameters from the origin. The named many-cornered polygons of spec/MC_Polygon2.tla (6-16 vertices, every relabelling) go through the same T1 "
            "theorems and the same replay.",
     "C01": "Placements include a one-milliradian tilt and micrometre / nanometre copies a few diameters from the origin.",
     "C07": "The T3 traces include a nearly-flat-ridge family (the Lifted universe: nine facets for every positive push; objects "
-           "built with a push of 1e-3 .. 1e-8 of the edge are validated against the lattice member of the family).",
+           "built with a push of 1e-3 .. 1e-8 of the edge are validated against the lattice member of the family). Sort and merge traces are also recorded with one vertex of the polytope at the origin (facet planes with offset exactly 0), unrotated and rotated.",
     "C10": "The ellipse perimeter has two rigorous enclosures (Gauss-Kummer series and Gauss's AGM, tight for needles up to "
            "aspect ratio 2000) that must intersect; eccentricity is compared on e^2.",
-    "C11": "Named cores with one extreme feature each: Knife (dihedral 0.76 degrees), Blade, Slab, Spike.",
+    "C11": "Named cores with one extreme feature each: Knife (dihedral 0.76 degrees), Blade, Slab, Spike. The same shapes are also reached by a history (spec/ShapeMachine.tla, ReachByHistory; vh/history.py): constructed similar and elsewhere, asked every query (shape and live core), resized and moved by public setters with queries in between, then held to the same exact values.",
     "C13": "Circle centres must lie in the polygon's plane. A prism over an irregular cyclic octagon (degenerate for the randomised "
-           "minimal-ball solver) is queried thousands of times under seeded generator states.",
+           "minimal-ball solver) is queried thousands of times under seeded generator states. The same shapes are also reached by a history (spec/ShapeMachine.tla, ReachByHistory; vh/history.py): constructed similar and elsewhere, asked every query (shape and live core), resized and moved by public setters with queries in between, then held to the same exact values.",
     "C15": "Non-planar inputs are also offered at micrometre scale. spec/MC_Ctor2.tla classifies the named polygons (6-16 vertices) with "
            "two entries exchanged; they are replayed in every cyclic shift and both directions.",
     "C16": "Single queries also run on a nanometre-sized base.",
     "C05": "ConvexPolyhedron is also queried with the origin between centroid and farthest vertex, at the centroid and at a vertex, "
            "on slender asymmetric solids (Spike, SkewSpike). Rounded solids with general convex cores: exact squared point-polytope distances from spec/Convex3.tla (DistSq) on "
-           "random lattice cores and on named cores where sharp ridges meet nearly flat facets (Blade, Slab, Ridge).",
+           "random lattice cores and on named cores where sharp ridges meet nearly flat facets (Blade, Slab, Ridge). The same shapes are also reached by a history (spec/ShapeMachine.tla, ReachByHistory; vh/history.py): constructed similar and elsewhere, asked every query (shape and live core), resized and moved by public setters with queries in between, then held to the same exact values.",
     "C06": "Circles and ellipses down to 1e-7 in size. The named many-cornered polygons of spec/MC_Polygon2.tla are included with every relabelling.",
     "C09": "spec/Prism3.tla: prisms over named and grown non-convex lattice polygons whose caps are single non-convex faces are "
            "replayed as Polyhedron for EVERY start vertex of the cap faces (exact centroid and membership; every other observable "
@@ -322,7 +322,7 @@ _ADD = {
            "wrong loop variant is refuted as a canary), and what the code returns for placed polygons is validated as a tiling.",
     "C12": "Spheres of spec/Curved.tla at |q| R in {1e-3 .. 1} by the alternating series of (sin x - x cos x)/x^3. After the first evaluation the volume setter doubles the size and the transform is evaluated again against the same "
            "exact record (F'(q/2) = 8 F(q)).",
-    "C14": "Angles a few ulps below a multiple of 2 pi are included. Placements include edges leaning 4e-6 rad from the axes and a nanometre-sized copy.",
+    "C14": "Angles a few ulps below a multiple of 2 pi are included. Placements include edges leaning 4e-6 rad from the axes and a nanometre-sized copy. The same shapes are also reached by a history (spec/ShapeMachine.tla, ReachByHistory; vh/history.py): constructed similar and elsewhere, asked every query (shape and live core), resized and moved by public setters with queries in between, then held to the same exact values. The live core of a rounded polygon reached this way is held to the polygon's exact radial distances too.",
     "C17": "spec/Family523.tla decides the 523 family exactly over Q(sqrt5) (plane set from the symmetry description with the "
            "T1 theorem of icosahedral invariance; irrational corners, edges, interior and outside points). spec/Factory.tla states the factory contract (the answer for a key is the shape the key defines, whatever was "
            "requested before or done to earlier answers); all its Get/Mutate histories are replayed against every parametric family.",
